@@ -382,6 +382,7 @@ func c17Break(t *tape.Tape, doc []byte) []byte {
 func c17GenScenario(r *core.Run) *c17Scenario {
 	t := r.T
 	sc := &c17Scenario{}
+	long := r.Tier == "thorough" && t.Chance(1, 3)
 	ntasks := t.Pick(0, 3, 3, 2, 2)
 	if ntasks == 0 {
 		ntasks = 1
@@ -397,6 +398,9 @@ func c17GenScenario(r *core.Run) *c17Scenario {
 	for i := 0; i < ntasks; i++ {
 		var steps []c17Step
 		n := t.Range(2, 10)
+		if long {
+			n = t.Range(10, 30)
+		}
 		live := [2]bool{}
 		for j := 0; j < n; j++ {
 			k := t.Intn(2)
